@@ -167,3 +167,51 @@ func VHarness_C12_PasswordChange() {
 	_, after, err2 := a.GetSession("sid")
 	vAssert(err2 != nil && after == nil, "session issued before a password change still authenticates")
 }
+
+// VHarness_C12_Rehash: the best-effort re-hash of a just-verified password at a new bcrypt cost never brings back a
+// password that another node has changed in the meantime (the re-hash's write loses a compare-and-swap race).
+func VHarness_C12_Rehash() {
+	s := vhNewStore(vParam("faults", 1) == 1, true)
+	s.interfereMax = 1
+	a := vhNewAuth(s)
+	a.BcryptCost = 12
+	a.bcryptCostChanged = true
+	oldPw := "o" + vNondetString(1)
+	newPw := "n" + vNondetString(1)
+	// stored user: password oldPw hashed at an older cost
+	a.BcryptCost = 10
+	u := &userImpl{auth: a}
+	u.Name_ = "u1"
+	u.docID = a.DocIDForUser("u1")
+	vAssert(u.SetPassword(oldPw) == nil, "SetPassword ok")
+	a.BcryptCost = 12
+	stored := *u
+	s.docs[u.docID] = &vhDoc{v: &stored, cas: s.nextCas()}
+	var otherHash []byte
+	s.onInterfere = func(d *vhDoc) {
+		// the other node changes the user's password (hashing at the configured cost)
+		if cur, ok := d.v.(*userImpl); ok {
+			c := *cur
+			c.auth = a
+			vAssert(c.SetPassword(newPw) == nil, "other node: SetPassword ok")
+			otherHash = c.PasswordHash_
+			d.v = &c
+		}
+	}
+	loaded, err := a.GetUser("u1")
+	if err != nil || loaded == nil {
+		return
+	}
+	_ = a.rehashPassword(loaded, oldPw)
+	d := s.docs[u.docID]
+	now := d.v.(*userImpl)
+	if s.interfered > 0 {
+		vCover("password-changed-meanwhile")
+		vAssert(string(now.PasswordHash_) == string(otherHash), "a password changed by another node is not overwritten by the re-hash of the old password")
+	} else if s.okWrites > 0 {
+		vCover("rehashed")
+		cost, cerr := bcrypt.Cost(now.PasswordHash_)
+		vAssert(cerr == nil && cost == 12, "the re-hashed password has the configured cost")
+		vAssert(bcrypt.CompareHashAndPassword(now.PasswordHash_, []byte(oldPw)) == nil, "the re-hash is of the verified password")
+	}
+}
